@@ -11,7 +11,10 @@ MISSING = '__missing__'
 JSONRPC_ALPHA = [MISSING, '2.0', '1.0', 2.0, 2, None, True, [], {}, '2.00', ' 2.0', '2.0%', '%s', '%(x)d %', '2', '.0', '']
 ID_ALPHA = [MISSING, None, 0, 1, -1, 2 ** 63, 10 ** 30, 1.0, 1.5, '', 'a', '1', True, False, [], {}, 'é\u0000\U0001F600', '%s %d', '{0}']
 METHOD_ALPHA = [MISSING, 'js_checked', 'js_loose', 'slowfail', 'byid', 'wrapped', 'whoami', 'ctxp', 'fac1', 'fac2', 'ok', 'noargs', 'echo', 'kwonly', 'rpcerr', 'typed', 'boom', 'ctxm', 'view.vm',
-                'view._hidden', 'view', 'nope', '', 1, None, True, [], {}]
+                'view._hidden', 'view', 'nope', '', 1, None, True, [], {}, 'rpc.nope', 'ok ', '\nok', 'rpc.']
+# names nobody registered: plain, in the namespace JSON-RPC reserves for extensions (a name like any other to a server that
+# registered nothing there), and registered names with white space around them or in another case
+UNKNOWN_NAMES = ['nope', 'rpc.nope', 'ok ', 'rpc.discover', ' ok', 'OK', 'ok\n', 'rpc.']
 PARAMS_ALPHA = [MISSING, [], {}, [1], [1, 2], {'a': 1}, {'a': 1, 'b': 2}, {'z': 0}, None, 1, 's', True,
                 [[1, [2, {'x': None}]]], {'v': {'k': [1.5, 'é', False]}}, [1, 2, 3], {'ctx': 'evil', 'a': 1}, [{}], [{'a': 1, 'b': 2}],
                 {'content-type': 1, 'a': 1}, {'': 0}, {'2fa': 1, '$ref': 2, 'a b': 3}]
@@ -97,6 +100,9 @@ def typed_calls(rng: random.Random, full: bool) -> Iterator[Tuple[str, str, List
     for v in JSON_SHAPES:
         yield 'echo-shape', 'echo', [v]
         yield 'echo-shape', 'echo', {'v': v}
+    for name in UNKNOWN_NAMES:
+        for p in ([1], {'a': 1}, []):
+            yield 'unknown-name', name, p
     for p in ([1], [1, 2], {'a': 1}, {'a': 1, 'b': 2}, {'b': 2, 'a': None}):
         yield 'ok', 'ok', p
         yield 'view', 'view.vm', p
@@ -162,6 +168,10 @@ def typed_calls(rng: random.Random, full: bool) -> Iterator[Tuple[str, str, List
     yield 'unbound', 'noargs', {'': 0}
     for p in ([2], {'n': 4}):
         yield 'custom-validator-code', 'pd_even', p
+    for p in ([5], {'d': 1.5}, ['P2D']):
+        yield 'bound-on-a-converted-type', 'pd_span', p
+    for p in ([-5], [0], {'d': '-P1D'}, ['P0D'], ['x'], [None], [], [[1]], {'e': 1}):
+        yield 'unbound', 'pd_span', p
     for p in ([3], {'n': 7}, ['x'], []):
         yield 'unbound', 'pd_even', p
     for p in ([['a', 'b']], {'items': []}, [[]]):
@@ -183,6 +193,10 @@ def typed_calls(rng: random.Random, full: bool) -> Iterator[Tuple[str, str, List
     for p in ([1], {'a': 1, 'b': 2}, [1, 2]):
         yield 'view-class-or-static-method', 'view.cm', p
         yield 'view-class-or-static-method', 'view.sm', p
+    for p in (['m'], ['m', 'c'], {'message': 'm', 'context': {'k': 1}}, {'context': None, 'message': 1}):
+        yield 'view-method-with-a-parameter-named-context', 'view.note', p
+    for p in ([], {'context': 1}, [1, 2, 3], {'message': 1, 'ctx': 2}):
+        yield 'unbound', 'view.note', p
     for p in ([], {'cls': 1}, {'b': 2}, [1, 2, 3]):
         yield 'unbound', 'view.cm', p
         yield 'unbound', 'view.sm', p
@@ -278,9 +292,11 @@ def make_element(kind: str, pos: int, scheme: str = 'int') -> Any:
     if kind == 'call_slow':
         return obj(id=i, method='slow', params=[tok, max(0, 3 - pos)])    # earlier elements finish later
     if kind == 'call_view':
+        if pos % 2:
+            return obj(id=i, method='view.note', params={'message': tok, 'context': pos})
         return obj(id=i, method='view.vm', params={'a': tok})
     if kind == 'call_unknown':
-        return obj(id=i, method='nope', params=[tok])
+        return obj(id=i, method=UNKNOWN_NAMES[pos % len(UNKNOWN_NAMES)], params=[tok])
     if kind == 'call_unbound':
         return obj(id=i, method='ok', params={'zz': tok})
     if kind == 'call_rpcerr':
@@ -297,7 +313,7 @@ def make_element(kind: str, pos: int, scheme: str = 'int') -> Any:
     if kind == 'notify_ok':
         return obj(method='ok', params=[tok])
     if kind == 'notify_unknown':
-        return obj(method='nope', params=[tok])
+        return obj(method=UNKNOWN_NAMES[(pos + 1) % len(UNKNOWN_NAMES)], params=[tok])
     if kind == 'notify_unbound':
         return obj(method='ok', params={'zz': tok})
     if kind == 'notify_rpcerr':
